@@ -133,6 +133,11 @@ func (e *Env) arm(file *FFile, fault string, k int64) {
 	case "dbsync":
 		e.DB.Fail = true
 		file.SyncFail = true
+	case "sync":
+		// the next fsync of the header file fails and nothing else does:
+		// the operations of the unchanged code sync only when compensating
+		// for a failed index transaction, so this is no fault at all
+		file.SyncFail = true
 	case "trunc":
 		// For appends: db failure followed by a failing compensation;
 		// for rollbacks: the truncate itself fails.
@@ -371,7 +376,7 @@ func (e *Env) exec(op *Op) bool {
 
 func faultTerm(op *Op) string {
 	switch op.Fault {
-	case "", "db2":
+	case "", "db2", "sync":
 		return "NoFault"
 	case "write":
 		return c.App("WriteFail", c.Z(op.K))
@@ -516,6 +521,9 @@ func (g *Gen) pickFault(app bool, nbytes int64, malformed bool) (string, int64) 
 	if x < 6 && (nbytes > 0 || !app) {
 		return "db2", 0
 	}
+	if x < 10 && (nbytes > 0 || !app) {
+		return "sync", 0
+	}
 	if app {
 		switch {
 		case x < 78:
@@ -634,7 +642,7 @@ func (g *Gen) Next(malformed bool) Op {
 			}
 		}
 		op.Fault, op.K = g.pickFault(false, 0, malformed)
-		if op.Fault != "" && op.Fault != "db2" {
+		if op.Fault != "" && op.Fault != "db2" && op.Fault != "sync" {
 			op.WF = false
 		}
 		return op
@@ -654,7 +662,7 @@ func (g *Gen) Next(malformed bool) Op {
 			op.WF = false
 		}
 		op.Fault, op.K = g.pickFault(false, 0, malformed)
-		if op.Fault != "" && op.Fault != "db2" {
+		if op.Fault != "" && op.Fault != "db2" && op.Fault != "sync" {
 			op.WF = false
 		}
 		return op
